@@ -574,7 +574,13 @@ pub(super) fn translate_cid(cid: rq::CId, ctx: &mut Context) -> Result<ExprOrSou
             ColumnDecl::RelationColumn(riid, _, col) => {
                 let column = match col.clone() {
                     rq::RelationColumn::Wildcard => translate_star(ctx, None)?,
-                    rq::RelationColumn::Single(name) => name.unwrap(),
+                    rq::RelationColumn::Single(Some(name)) => name,
+                    rq::RelationColumn::Single(None) => {
+                        return Err(Error::new_simple(
+                            "a column of a sub-query that has no name cannot be referred to from the outer query",
+                        )
+                        .push_hint("give the column a name, for example `select {x = a + b}`"))
+                    }
                 };
                 let t = &ctx.anchor.relation_instances[riid];
 
